@@ -81,6 +81,8 @@ class Scen:
             ls.append("kill " + " ".join(str(x) for x in self.kill))
         if getattr(self, "pre", None):
             ls.append("pre " + " ".join(self.pre))
+        if getattr(self, "again", None):
+            ls.append("again " + " ".join(self.again))
         return "\n".join(ls + self.root.lines()) + "\n"
 
     def copy(self):
